@@ -178,6 +178,14 @@ def gen(rng, tier):
                [hexf(float(inv[a][b])) for a in range(nn) for b in range(nn)]
         ls.append("ls " + " ".join(toks))
         n += 1
+        if n % 2 == 0:
+            # the same problem with a full, generally non-symmetric preconditioner (x = A z + b for any configured A)
+            af = [[float(rng.choice([0, 0, 1, -1, 2, 0.5, 3, -0.25])) for _ in range(nn)] for _ in range(nn)]
+            for d in range(nn):
+                af[d][d] = float(rng.choice([1, 2, 0.5, -1, 4]))
+            toks = [str(m), str(nn)] + [hexf(v) for row in j for v in row] + [hexf(v) for row in af for v in row] + [hexf(var)] + \
+                   [hexf(float(inv[a][b])) for a in range(nn) for b in range(nn)]
+            ls.append("lsg " + " ".join(toks))
     groups.append(("least-squares covariance", ls))
     return groups
 
@@ -317,11 +325,17 @@ def oracle_ls(t, o):
     m, n = int(t[1]), int(t[2])
     vals = [Fraction(float.fromhex(x)) for x in t[3:]]
     j = [[vals[r * n + c] for c in range(n)] for r in range(m)]
-    ad = vals[m * n:m * n + n]
-    var = vals[m * n + n]
+    if t[0] == "lsg":
+        am = [[vals[m * n + a * n + b] for b in range(n)] for a in range(n)]
+        var = vals[m * n + n * n]
+    else:
+        ad = vals[m * n:m * n + n]
+        am = [[ad[a] if a == b else Fraction(0) for b in range(n)] for a in range(n)]
+        var = vals[m * n + n]
     jtj = [[sum(j[r][a] * j[r][b] for r in range(m)) for b in range(n)] for a in range(n)]
     inv = frac_inverse(jtj)
-    exp = [[var * ad[a] * inv[a][b] * ad[b] for b in range(n)] for a in range(n)]
+    # x = A z + b with Cov(z) = var * (J^T J)^-1   ==>   Cov(x) = var * A (J^T J)^-1 A^T
+    exp = [[var * sum(am[a][p] * inv[p][q] * am[b][q] for p in range(n) for q in range(n)) for b in range(n)] for a in range(n)]
     scale = max(abs(float(v)) for row in exp for v in row)
     if len(o) != n * n:
         return [("c12-ls-shape", "expected %d entries" % (n * n))]
@@ -340,12 +354,12 @@ def oracle(case, out):
     o = nums(out)
     if any(v is None for v in o):
         return [("c12-shape", "unparsable output")]
-    a = [float.fromhex(x) for x in t[1:]] if t[0] != "ls" else None
+    a = [float.fromhex(x) for x in t[1:]] if t[0] not in ("ls", "lsg") else None
     if t[0] == "smart":
         return oracle_smart(a, o) if len(o) == 99 else [("c12-shape", "smart: %d tokens" % len(o))]
     if t[0] == "pose":
         return oracle_pose(a, o) if len(o) == 114 else [("c12-shape", "pose: %d tokens" % len(o))]
-    if t[0] == "ls":
+    if t[0] in ("ls", "lsg"):
         return oracle_ls(t, o)
     return [("c12-shape", "unknown case kind")]
 
@@ -408,7 +422,7 @@ CHECK = {
             "vectors of norm 1e-3..1e3, plus the two witnesses of the refutation theorems; pose covariance: rigid transforms (15% identity, "
             "15% pure yaw, random otherwise; translations up to 1e3), poses up to 1e4 with |pitch| <= pi/2-0.05 before and after, PSD 6x6 "
             "covariances of rank 0..6 and scale 1e-4..1e2; least squares: 1..4 unknowns, up to 5 redundant rows, dyadic entries, full rank, "
-            "diagonal preconditioners. Non-trivial = distinct case with a finite result.",
+            "diagonal preconditioners and, every second problem, a full non-symmetric preconditioner (case kind lsg). Non-trivial = distinct case with a finite result.",
     "trusted": ["hand-written models coq/AnglesModel.v, coq/PoseCovModel.v tied by differential execution (this run)",
                 "extraction (ExtrOcamlBasic), ocaml/numf.ml, ocaml/drv_C12.ml", "harness/C12.cpp, python/mpmath/Fraction oracle in checks/C12.py",
                 "Eigen: Transform::rotation() returns the linear part of a rigid transform; LDLT solve returns the inverse (contract checked)"],
@@ -424,7 +438,7 @@ CHECK = {
                 "(after between0And2Pi) wherever none is 0 (C12_pose_jacobian_angular_reported, covers the cut of atan2); the attached "
                 "covariance is J*C*J^T with that J and is symmetric PSD whenever C is (C12_pose_covariance), the original Jacobian is "
                 "refuted at the identity transform; "
-                "computeEstimateCovariance = variance*A*inv*A^T for diagonal A, and with the contract inv*(J^T J) = I of the stored inverse "
+                "computeEstimateCovariance = variance*A*inv*A^T for EVERY configured A (after the repair 870e444; the transposed product of the old code is refuted), and with the contract inv*(J^T J) = I of the stored inverse "
                 "A^-1*cov*A^-1*(J^T J) = variance*I (C12_ls_covariance_inverse_normal). The model runs against the real classes; an mpmath "
                 "oracle compares derivative matrices with the true derivatives (recognising exactly the characterised leftover, 1e-12) and the "
                 "attached covariance with J*C*J^T from 40-digit central differences of the pose map, cross-checked against central "
